@@ -1,7 +1,7 @@
 #!/usr/bin/env python3
 """Confirms a seeded property-breaking change and runs the property's check against it.
 
-usage: seed_eval.py <prop> <name> <mutant_dir> <demo_file> <demo_target_dir> <test_regex> <pkg> [--needs TEXT] [--budget N] [--keep]
+usage: seed_eval.py <prop> <name> <mutant_dir> <demo_file> <demo_target_dir> <test_regex> <pkg> [--needs TEXT] [--budget N] [--keep] [--check PROP]
 
 Steps (all in a scratch copy of /repo's HEAD outside /repo and /verif):
  1. demo passes without the patch
@@ -21,13 +21,14 @@ def sh(cmd, cwd, timeout=900):
 
 def main():
     a = sys.argv[1:]
-    needs, budget, keep = "", "30", False
+    needs, budget, keep, check = "", "30", False, ""
     pos = []
     i = 0
     while i < len(a):
         if a[i] == "--needs": needs = a[i+1]; i += 2
         elif a[i] == "--budget": budget = a[i+1]; i += 2
         elif a[i] == "--keep": keep = True; i += 1
+        elif a[i] == "--check": check = a[i+1]; i += 2
         else: pos.append(a[i]); i += 1
     prop, name, mdir, demo, target, regex, pkg = pos
     d = tempfile.mkdtemp(prefix="seed.", dir="/tmp")
@@ -74,9 +75,12 @@ def main():
         shutil.rmtree(os.path.join(d, ".git"), ignore_errors=True)
         t0 = time.time()
         env = dict(ENV, VERIF_REPO=d, VERIF_EVIDENCE_DIR=os.path.join(d, "_evidence"), VERIF_REPLAY_DIR=os.path.join(d, "_replays"))
-        p = subprocess.run("./bin/vcheck run -prop %s -budget %s" % (prop, budget), shell=True, cwd="/verif", env=env, stdout=subprocess.PIPE, stderr=subprocess.STDOUT)
+        cprop = check or prop
+        p = subprocess.run("./bin/vcheck run -prop %s -budget %s" % (cprop, budget), shell=True, cwd="/verif", env=env, stdout=subprocess.PIPE, stderr=subprocess.STDOUT)
         out = p.stdout.decode(errors="replace")
-        res["check_cmd"] = "VERIF_REPO=<scratch copy with the change> ./bin/vcheck run -prop %s -budget %s" % (prop, budget)
+        res["check_cmd"] = "VERIF_REPO=<scratch copy with the change> ./bin/vcheck run -prop %s -budget %s" % (cprop, budget)
+        if check:
+            res["note"] = "breaks %s under conditions that are %s's domain; caught by the %s check (check_cmd below)" % (prop, check, check)
         res["check_exit"] = p.returncode
         res["check_wall_s"] = round(time.time() - t0, 1)
         lines = [l for l in out.split("\n") if l.startswith("VIOLATION") or l.startswith("  oracle=") or l.startswith("KNOWN") or l.startswith("vcheck:")]
